@@ -37,7 +37,7 @@ or handed to `direct_update` (direct link), in push order; the first `nrecv` of 
 have been received.  tokio's mpsc is assumed FIFO and bounded (`cap`).
 
 Ghost fields (no counterpart in the code, used by the theorems only): `PubSt.snap`,
-`Chan.acked`, `Chan.unsubbed`, `Chan.susp`.
+`Chan.acked`, `Chan.unsubbed`, `Chan.susp`, `Chan.suspSent`.
 -/
 namespace Rotonda.Gate
 
@@ -91,6 +91,8 @@ structure Chan where
   susp : Bool := false
   /-- the link called `disconnect()` -/
   disc : Bool := false
+  /-- GHOST: the link asked for suspension at some point (`connect(suspended = true)` or `suspend()`) -/
+  suspSent : Bool := false
   /-- receiver not closed/dropped (queue link), target alive (direct link) -/
   open_ : Bool := true
   /-- messages pushed to the link, in push order -/
@@ -244,7 +246,8 @@ def step (st : St) : Step → Option St
   | .linkSubscribe s k b =>
     if s = st.nslots then
       some { (st.send (.subscribe s b)) with
-               chans := upd st.chans s { st.chans s with kind := k }, nslots := st.nslots + 1 }
+               chans := upd st.chans s { st.chans s with kind := k, suspSent := (st.chans s).suspSent || b },
+               nslots := st.nslots + 1 }
     else none
   | .linkCancel s =>
     let ch := st.chans s
@@ -253,7 +256,10 @@ def step (st : St) : Step → Option St
     else none
   | .linkSuspend s b =>
     let ch := st.chans s
-    if ch.acked && !ch.disc then some (st.send (.suspension s b)) else none
+    if ch.acked && !ch.disc then
+      some { (st.send (.suspension s b)) with
+               chans := upd st.chans s { ch with suspSent := ch.suspSent || b } }
+    else none
   | .linkDisconnect s =>
     let ch := st.chans s
     if ch.acked && !ch.disc then
